@@ -6,11 +6,13 @@ package main
 
 import (
 	"fmt"
-	"regexp"
+	"go/ast"
 	"go/token"
 	"go/types"
+	"regexp"
 	"strings"
 
+	"golang.org/x/tools/go/packages"
 	"golang.org/x/tools/go/ssa"
 )
 
@@ -214,6 +216,25 @@ func runC01Idx(c *Ctx) {
 	p := c.P
 	idxProg = p
 	occ := map[string]int{}
+	// source text of every index and slice expression, keyed by the position of its '[': the construct is named by that
+	// text, so that adding or removing another index expression in the same function does not rename it
+	srcText := map[token.Pos]string{}
+	for _, pkg := range []*packages.Package{p.Main, p.Cmd} {
+		if pkg == nil {
+			continue
+		}
+		for _, f := range pkg.Syntax {
+			ast.Inspect(f, func(n ast.Node) bool {
+				switch e := n.(type) {
+				case *ast.IndexExpr:
+					srcText[e.Lbrack] = types.ExprString(e)
+				case *ast.SliceExpr:
+					srcText[e.Lbrack] = types.ExprString(e)
+				}
+				return true
+			})
+		}
+	}
 	for _, fn := range p.Funcs {
 		sortCB := isSortCallback(fn)
 		eachInstr(fn, func(b *ssa.BasicBlock, _ int, in ssa.Instruction) {
@@ -238,8 +259,16 @@ func runC01Idx(c *Ctx) {
 				return
 			}
 			k := FuncName(fn) + "|" + kind + " of " + typeStr(x.Type())
+			hasText := false
+			if t, ok := srcText[in.Pos()]; ok && in.Pos().IsValid() {
+				k += " " + t
+				hasText = true
+			}
 			occ[k]++
-			construct := fmt.Sprintf("%s#%d", k, occ[k])
+			construct := k
+			if occ[k] > 1 || !hasText {
+				construct = fmt.Sprintf("%s#%d", k, occ[k])
+			}
 			why := ""
 			if kind == "index" {
 				why = indexSafe(fn, b, x, idx, sortCB)
@@ -513,7 +542,35 @@ func sliceSafe(fn *ssa.Function, b *ssa.BasicBlock, x, low, high ssa.Value) stri
 	n, fixed := fixedLen(x)
 	okLow, okHigh := low == nil, high == nil
 	lowWhy, highWhy := "", ""
-	chk := func(v ssa.Value, isHigh bool) (bool, string) {
+	seenPhi := map[*ssa.Phi]bool{}
+	var chk func(v ssa.Value, isHigh bool) (bool, string)
+	chk = func(v ssa.Value, isHigh bool) (bool, string) {
+		// the byte index of a range loop over the same string
+		if ex, ok := v.(*ssa.Extract); ok && ex.Index == 1 {
+			if nx, ok := ex.Tuple.(*ssa.Next); ok && nx.IsString {
+				if rg, ok := nx.Iter.(*ssa.Range); ok && sameContainer(rg.X, x) {
+					return true, "byte index of the range loop over the same string"
+				}
+			}
+		}
+		// a join of values that are each within bounds
+		if ph, ok := v.(*ssa.Phi); ok && !seenPhi[ph] && !strings.HasPrefix(ph.Comment, "rangeindex") {
+			seenPhi[ph] = true
+			whys := []string{}
+			for _, e := range ph.Edges {
+				if e == ssa.Value(ph) {
+					continue
+				}
+				ok, w := chk(e, isHigh)
+				if !ok {
+					return false, ""
+				}
+				whys = append(whys, w)
+			}
+			if len(whys) > 0 {
+				return true, "join of: " + strings.Join(whys, " | ")
+			}
+		}
 		if k, ok := constInt(v); ok {
 			if k == 0 {
 				return true, "0"
@@ -700,8 +757,9 @@ func indexSearchBound(v ssa.Value, x ssa.Value, b *ssa.BasicBlock) string {
 	if !onlyZero(linWithout(rest, "1")) || rest["1"] < 0 || int64(rest["1"]) > subLen {
 		return ""
 	}
-	// guarded: the search result compared with -1 / 0 somewhere that dominates
-	guarded := false
+	// guarded: the search result compared with -1 / 0 somewhere that dominates; no test is needed when at least 1 is added,
+	// since a failed search returns -1
+	guarded := rest["1"] >= 1
 	for ifi := range controllingConds(b) {
 		if bo, ok := ifi.Cond.(*ssa.BinOp); ok && (bo.X == ssa.Value(search) || bo.Y == ssa.Value(search)) {
 			guarded = true
